@@ -2,7 +2,7 @@ SPECIFICATION OSpec
 CONSTANTS
   MaxRoots = 3
   MaxFiles = 3
-  FileFaults = {"E", "P", "N", "M", "A", "S", "W", "C", "D", "R", "Z", "T", "G", "H"}
+  FileFaults = {"E", "P", "N", "M", "A", "S", "W", "C", "D", "R", "Z", "T", "G", "H", "K"}
   RootFaults = {"badtoml", "vermismatch", "missing", "dir"}
   Combos = {}
   GenMode = "all"
